@@ -33,13 +33,23 @@ from engine import common, tlc, replay
 PROP = "C16"
 
 ALL_CLASSES = {"a", "ff", "eac", "cur", "nel", "A1", "eur", "ls", "zw", "so", "hi", "ast"}
-ALL_LAYOUTS = {"none", "p1", "p2s", "p2b", "p2x", "p3"}
+ALL_LAYOUTS = {"none", "p1", "p2s", "p2b", "p2p", "p2x", "p3"}
 ALL_OPS = {"rwb-write", "rwb-force", "edit", "insert", "delete", "rename"}
 BASE = {"NLs": {"LF", "CRLF", "CR"}, "Finals": {True, False}, "Boms": {True, False},
-        "InsertKinds": {"com"}, "UndoModes": {"session"}, "RestoreNL": True, "KeepBom": True}
+        "InsertKinds": {"com"}, "UndoModes": {"session"}, "RestoreNL": True, "KeepBom": True,
+        "HeadClasses": {"ff", "nel", "ls"}, "AllowConvert": False}
 
 QUICK_SAMPLE = 100000   # behaviours replayed in the quick tier (seeded sample of all exported ones)
-INVARIANTS = ["TypeOK", "Glue", "ReadOK", "Identity", "LocalEdit", "ReadBack", "UndoRestores", "EncStable"]
+INVARIANTS = ["TypeOK", "Glue", "ReadOK", "Identity", "LocalEdit", "ReadBack", "UndoRestores", "EncStable",
+              "ConvertOnlyNewlines"]
+
+
+# a long-lived File object: read once, the file's newline convention is converted outside rope
+# (every ordered pair of conventions), then the edit goes through the same object
+CONVERT = ("convert", dict(BASE, Classes={"eac"}, Cookies=tlc.Sub("MCCookiesLatin"), Layouts={"none", "p1"},
+                           Boms={False}, BodyKinds={"def", "use", "com"}, MaxBody=2, MaxPayload=1, MaxChars=1,
+                           NewNames={"long"}, Ops={"rwb-write", "rwb-force", "edit", "insert", "rename"},
+                           AllowConvert=True))
 
 
 def slices(tier):
@@ -51,10 +61,11 @@ def slices(tier):
             ("cookies", dict(BASE, Classes={"eac", "eur", "A1"}, Cookies=tlc.Sub("MCCookiesQuick"),
                              Layouts=ALL_LAYOUTS, BodyKinds={"def", "com"}, MaxBody=1, MaxPayload=1,
                              MaxChars=1, NewNames={"long", "lat"}, Ops={"rwb-force", "edit", "rename"})),
-            ("payload", dict(BASE, Classes={"eac", "eur", "ls", "ast", "so"},
+            ("payload", dict(BASE, Classes={"eac", "ls", "ast", "so"},
                              Cookies=tlc.Sub("MCCookiesPlain"), Layouts={"none", "p1"},
                              BodyKinds={"def", "use", "com"}, MaxBody=2, MaxPayload=1, MaxChars=1,
                              NewNames={"long", "lat"}, Ops=ALL_OPS, UndoModes={"session", "reopen"})),
+            CONVERT,
         ]
     return [
         ("cookies", dict(BASE, Classes={"eac", "eur", "A1", "so"}, Cookies=tlc.Sub("MCCookiesAll"),
@@ -71,6 +82,7 @@ def slices(tier):
                        Layouts={"none", "p1"}, BodyKinds={"def", "use", "com", "two"},
                        MaxBody=3, MaxPayload=1, MaxChars=1, NewNames={"long", "lat"}, Ops=ALL_OPS,
                        UndoModes={"session", "reopen"})),
+        CONVERT,
     ]
 
 
@@ -96,7 +108,7 @@ def run_tlc(name, consts, out, workers, coverage=False):
 
 def compact(v, slice_name):
     """JSON behaviour -> compact Python values (bytes / str) for pickling."""
-    for k in ("bytes0", "bytes1", "bytes2"):
+    for k in ("bytes0", "bytes1", "bytes2", "pre"):
         v[k] = bytes(v[k])
     for k in ("text0", "text1", "newline"):
         v[k] = "".join(map(chr, v[k]))
@@ -131,8 +143,19 @@ def cpython_view(data):
     if data in _cpy_cache:
         return _cpy_cache[data]
     try:
-        lines = iter(data.splitlines(True))
-        enc, _ = tokenize.detect_encoding(lambda: next(lines, b""))
+        ls = data.splitlines(True)
+        try:
+            lines = iter(ls)
+            enc, _ = tokenize.detect_encoding(lambda: next(lines, b""))
+        except SyntaxError:
+            # tokenize.detect_encoding (the Python re-implementation) insists that a first line
+            # without cookie is valid UTF-8 and rejects b"# \x85\n# coding: latin-1"; the compiler
+            # itself accepts it (ast.parse below is the judge).  Detection is retried with the
+            # non-ASCII bytes of a first comment line masked.
+            if not re.match(rb"^[ \t\f]*#", ls[0] if ls else b""):
+                raise
+            lines = iter([bytes(c if c < 128 else 63 for c in ls[0])] + ls[1:])
+            enc, _ = tokenize.detect_encoding(lambda: next(lines, b""))
         text = _UNL.sub("\n", data.decode(enc))
         tree = py_ast.parse(data)
         strs = [n.value.value for n in tree.body
@@ -190,13 +213,19 @@ def run_behaviour(beh):
     try:
         path = os.path.join(root, "m.py")
         with open(path, "wb") as f:
-            f.write(beh["bytes0"])
+            f.write(beh["pre"] or beh["bytes0"])
         reopen = beh["act"]["undo"] == "reopen"
         project = project_mod.Project(root) if reopen else project_mod.Project(root, ropefolder=None)
         try:
             res = project.get_file("m.py")
             prefix = ""
             try:
+                if beh["pre"]:
+                    # the File object is long-lived: it has read the file before something outside
+                    # rope converted the line endings (no Project.validate() in between)
+                    res.read()
+                    with open(path, "wb") as f:
+                        f.write(beh["bytes0"])
                 t0 = res.read()
                 obs["read0"] = t0
                 # allowance: rope hands the BOM to its clients as a leading U+FEFF
@@ -363,6 +392,7 @@ def key_of(beh, clause, deviation):
     return {"clause": clause, "deviation": deviation, "op": beh["act"]["op"],
             "undo": beh["act"]["undo"] if clause == "UndoRestores" else "-",
             "construct": cookie_case(f0, beh["enc"]), "nl": f0["nl"], "bom": f0["bom"],
+            "converted_outside": bool(beh["pre"]),
             "cookie_encoding": codec_of(f0["spelling"]), "final": f0["final"]}
 
 
@@ -375,7 +405,7 @@ def codec_of(spelling):
 def describe(beh):
     """JSON-able rendering of a behaviour for replays and samples."""
     out = {k: beh[k] for k in ("file0", "enc", "effective", "act", "off", "undone", "slice")}
-    for k in ("bytes0", "bytes1", "bytes2"):
+    for k in ("pre", "bytes0", "bytes1", "bytes2"):
         out[k] = beh[k].decode("latin-1").encode("unicode_escape").decode("ascii")
     out["text1"] = beh["text1"]
     return out
